@@ -882,6 +882,20 @@ func c13Minimise(r *Run, c *c13Case, v *Violation) *Violation {
 			cur.World.Files[i].Data = []byte(strings.Join(items, ""))
 		}
 	}
+	// 5. drop files once more (imports may have disappeared while shrinking)
+	for i := 0; i < len(cur.World.Files) && budget > -40; {
+		if cur.World.Files[i].Path == mainAbs {
+			i++
+			continue
+		}
+		cand := cur
+		cand.World.Files = append(append([]simrt.FileSpec{}, cur.World.Files[:i]...), cur.World.Files[i+1:]...)
+		if same(cand) {
+			cur = cand
+		} else {
+			i++
+		}
+	}
 	// final confirmation in a fresh process
 	cur.World.Budgets = full
 	if cls, res := c13Probe(r, &cur); cls == v.Class {
